@@ -9,6 +9,9 @@ CONSTANTS Family, Size
 
 VARIABLE case
 vars == <<case>>
+\* Size: "t" thorough tables, "q" quick tables, "m" the quick tables cut down to the classes / targets the broken variants need
+Quick == Size \in {"q", "m"}
+Mini == Size = "m"
 
 \* ---- representative texts -------------------------------------------------------------------------------------
 D_DEFAULT == <<84, 104, 101, 32, 100, 101, 102, 97, 117, 108, 116, 46>>          \* "The default."  (stands for the class's text)
@@ -25,16 +28,16 @@ W_BASIC == <<66, 97, 115, 105, 99, 32, 114, 101, 97, 108, 109, 61, 34, 120, 34>>
 W_DIGEST == <<68, 105, 103, 101, 115, 116, 32, 114, 101, 97, 108, 109, 61, 34, 120, 34, 44, 32, 110, 111, 110, 99, 101, 61, 34, 110, 34>>
 K_REPR == <<39, 116, 60, 107, 62, 39>>                                           \* repr("t<k>") = 't<k>'
 
-Descs == IF Size = "q"
+Descs == IF Quick
          THEN {[k |-> "none", v |-> <<>>], [k |-> "text", v |-> D_HTML], [k |-> "text", v |-> D_NL], [k |-> "markup", v |-> D_MARK]}
          ELSE {[k |-> "none", v |-> <<>>], [k |-> "text", v |-> D_HTML], [k |-> "text", v |-> D_NL], [k |-> "markup", v |-> D_MARK],
                [k |-> "text", v |-> D_UNI], [k |-> "int", v |-> D_INT], [k |-> "text", v |-> <<>>]}
-ViaMethod == IF Size = "q" THEN {<<"none", "GET">>, <<"environ", "HEAD">>, <<"request", "POST">>, <<"call", "GET">>, <<"call", "HEAD">>}
+ViaMethod == IF Quick THEN {<<"none", "GET">>, <<"environ", "HEAD">>, <<"request", "POST">>, <<"call", "GET">>, <<"call", "HEAD">>}
              ELSE {"none", "environ", "request", "call"} \X {"GET", "HEAD", "POST"}
 
 NoArg == [k |-> "none", vs |-> <<>>, n |-> <<>>, units |-> <<>>, dt |-> <<>>, key |-> <<>>, show |-> FALSE]
 A(k) == [NoArg EXCEPT !.k = k]
-Dates == IF Size = "q"
+Dates == IF Quick
          THEN {<<2020, 1, 4, 18, 52, 16, 0>>, <<2024, 2, 29, 23, 30, 0, 0 - 3600>>, <<2023, 1, 1, 0, 15, 0, 19800>>}
          ELSE {<<2020, 1, 4, 18, 52, 16, 0>>, <<2024, 2, 29, 23, 30, 0, 0 - 3600>>, <<2023, 1, 1, 0, 15, 0, 19800>>,
                <<1999, 12, 31, 23, 59, 59, 0 - 43200>>, <<2100, 3, 1, 0, 0, 0, 50400>>, <<2, 1, 1, 0, 0, 0, 0>>, <<9998, 12, 31, 23, 59, 59, 0>>}
@@ -50,7 +53,9 @@ ArgsOf(cls) ==
   ELSE IF kind = "key" THEN {A("k_none")} \cup {[A("k_key") EXCEPT !.key = K_REPR, !.show = s] : s \in BOOLEAN}
   ELSE {NoArg}
 \* classes that can be instantiated without special arguments ("_RetryAfter" has no code of its own and is not public)
-RenderRows == {r \in Rows : r.cls \notin {"_RetryAfter", "RequestRedirect"}}
+RenderRows == {r \in Rows : r.cls \notin {"_RetryAfter", "RequestRedirect"}
+                            /\ (Mini => r.cls \in {"HTTPException", "NotFound", "ImATeapot", "MethodNotAllowed", "RequestedRangeNotSatisfiable",
+                                                  "Unauthorized", "ServiceUnavailable", "BadRequestKeyError"})}
 RenderCases ==
   UNION {{[op |-> "render", cls |-> r.cls, name |-> r.name, cdesc |-> D_DEFAULT, via |-> vm[1], method |-> vm[2], desc |-> d,
            resp |-> p, arg |-> a] : vm \in ViaMethod, d \in Descs, a \in ArgsOf(r.cls), p \in {0, 1}} : r \in RenderRows}
@@ -60,16 +65,16 @@ RenderUniverse == {c \in RenderCases : (c.resp = 1 => (c.desc.k = "none" /\ c.ar
 \* ---- redirects ---------------------------------------------------------------------------------------------------
 S_HTTP == <<104, 116, 116, 112>>
 HOST == <<101, 120, 46, 99, 111, 109>>                                           \* ex.com
-Paths == IF Size = "q" THEN {<<47, 97>>, <<47, 252, 47, 9731>>, <<47, 97, 32, 98>>, <<47, 60, 120, 62, 34, 39, 38>>, <<47, 97, 37, 50, 48>>}
+Paths == IF Mini THEN {<<47, 97>>, <<47, 252, 47, 9731>>, <<47, 60, 120, 62, 34, 39, 38>>} ELSE IF Quick THEN {<<47, 97>>, <<47, 252, 47, 9731>>, <<47, 97, 32, 98>>, <<47, 60, 120, 62, 34, 39, 38>>, <<47, 97, 37, 50, 48>>}
          ELSE {<<47, 97>>, <<47, 252, 47, 9731>>, <<47, 97, 32, 98>>, <<47, 60, 120, 62, 34, 39, 38>>, <<47, 97, 37, 50, 48>>,
                <<47, 128512, 94, 96, 123, 124, 125, 92>>, <<47, 33, 36, 38, 39, 40, 41, 42, 43, 44, 59, 61, 58, 64>>, <<47>>, <<>>}
-Queries == {<<>>, <<120, 61, 228, 38, 121, 61, 63>>} \cup (IF Size = "q" THEN {} ELSE {<<113, 61, 97, 32, 98>>, <<60, 62>>})   \* x=ä&y=?   q=a b   <>
+Queries == {<<>>, <<120, 61, 228, 38, 121, 61, 63>>} \cup (IF Quick THEN {} ELSE {<<113, 61, 97, 32, 98>>, <<60, 62>>})   \* x=ä&y=?   q=a b   <>
 Frags == {<<>>, <<102, 35, 9731>>}                                               \* f#☃
 Locs == {[scheme |-> s[1], host |-> s[2], path |-> p, query |-> q, hasq |-> q # <<>>, frag |-> f, hasf |-> f # <<>>] :
          s \in {<<<<>>, <<>>>>, <<S_HTTP, HOST>>}, p \in Paths, q \in Queries, f \in Frags}
 NoEnv == [script |-> <<>>, path |-> <<>>, qs |-> <<>>]
 NoLoc == [scheme |-> <<>>, host |-> <<>>, path |-> <<>>, query |-> <<>>, hasq |-> FALSE, frag |-> <<>>, hasf |-> FALSE]
-RVia == IF Size = "q" THEN {<<"call", "GET">>, <<"call", "HEAD">>, <<"none", "POST">>} ELSE {"none", "environ", "call"} \X {"GET", "HEAD", "POST"}
+RVia == IF Quick THEN {<<"call", "GET">>, <<"call", "HEAD">>, <<"none", "POST">>} ELSE {"none", "environ", "call"} \X {"GET", "HEAD", "POST"}
 RedirectUniverse ==
   {c \in {[op |-> "redirect", fn |-> f, code |-> k, loc |-> l, env |-> NoEnv, via |-> vm[1], method |-> vm[2], rcls |-> rc] :
           f \in {"redirect", "rr"}, k \in RedirCodes, l \in Locs, vm \in RVia, rc \in BOOLEAN} :
@@ -77,11 +82,11 @@ RedirectUniverse ==
      /\ (c.fn = "rr" => c.code = 308 /\ ~c.rcls)
      /\ (c.fn = "redirect" => c.via = "call")
      /\ (c.rcls => c.code = 302)
-     /\ (Size = "q" /\ c.code \notin {302, 308} => c.loc.path = <<47, 97>> /\ ~c.loc.hasq /\ ~c.loc.hasf /\ c.method = "GET")}
+     /\ (Quick /\ c.code \notin {302, 308} => c.loc.path = <<47, 97>> /\ ~c.loc.hasq /\ ~c.loc.hasf /\ c.method = "GET")}
 
 \* ---- append_slash_redirect: every PATH_INFO of <= MaxPath bytes over an alphabet with the delimiters of a URL ------
-SlashAlpha == IF Size = "q" THEN {47, 97, 58, 63, 37, 195, 188, 52} ELSE {47, 97, 58, 63, 35, 37, 195, 188, 52, 49, 32, 43, 10}
-MaxPath == IF Size = "q" THEN 4 ELSE 5
+SlashAlpha == IF Mini THEN {47, 97, 58, 63, 195, 188} ELSE IF Quick THEN {47, 97, 58, 63, 37, 195, 188, 52} ELSE {47, 97, 58, 63, 35, 37, 195, 188, 52, 49, 32, 43, 10}
+MaxPath == IF Mini THEN 3 ELSE IF Quick THEN 4 ELSE 5
 SlashUniverse ==
   {c \in {[op |-> "redirect", fn |-> "slash", code |-> k, loc |-> NoLoc, env |-> [script |-> s, path |-> p, qs |-> q],
            via |-> "call", method |-> m, rcls |-> FALSE] :
@@ -110,6 +115,7 @@ Universe == CASE Family = "render" -> RenderUniverse
               [] Family = "redirect" -> RedirectUniverse
               [] Family = "slash" -> SlashUniverse
               [] Family = "abort" -> AbortUniverse
+              [] Family = "all" -> RenderUniverse \cup RedirectUniverse \cup SlashUniverse \cup AbortUniverse
 
 \* One seed state per part, the part's cases are its successors: TLC's workers then share the table (all initial states are
 \* generated by one thread).  Universe is a constant-level definition: TLC evaluates it once.
@@ -141,13 +147,14 @@ PresenceLaw == case.op = "render" /\ case.resp = 0 =>
   /\ Len(ValuesOf(o.headers, H_CT)) = 1
   /\ ValuesOf(o.headers, H_LOC) = <<>>
 \* non-vacuity of the universe: every clause family is exercised (checked once, on the whole table)
-Covered == Family # "render" \/
-  /\ \E c \in Universe : c.arg.k = "m_list" /\ Len(c.arg.vs) = 2
-  /\ \E c \in Universe : c.arg.k = "t_dt" /\ c.arg.dt[7] # 0
-  /\ \E c \in Universe : c.arg.k = "t_int" /\ c.arg.n = <<0>>
-  /\ \E c \in Universe : c.arg.k = "k_key" /\ c.arg.show
-  /\ \E c \in Universe : c.resp = 1 /\ c.via = "call"
-  /\ \A r \in RenderRows : \E c \in Universe : c.cls = r.cls /\ c.method = "HEAD"
+Covered == Family \notin {"render", "all"} \/
+  LET U == RenderUniverse IN
+  /\ \E c \in U : c.arg.k = "m_list" /\ Len(c.arg.vs) = 2
+  /\ \E c \in U : c.arg.k = "t_dt" /\ c.arg.dt[7] # 0
+  /\ \E c \in U : c.arg.k = "t_int" /\ c.arg.n = <<0>>
+  /\ \E c \in U : c.arg.k = "k_key" /\ c.arg.show
+  /\ \E c \in U : c.resp = 1 /\ c.via = "call"
+  /\ \A r \in RenderRows : \E c \in U : c.cls = r.cls /\ c.method = "HEAD"
 ASSUME Covered
 
 \* ---- export -----------------------------------------------------------------------------------------------------------
